@@ -297,8 +297,8 @@ theorem wa_chainFS_match_orphan :
           (splitPath_lit "orphan.x.yaml" ["orphan.x.yaml"] (by decide))]; decide)
     (by decide) (by rw [wa_parts_orphan]; decide) chainFS_plain (by decide) wa_chainFS_orphan
 
-theorem wa_chainFS_no_orphan : chainFS.findFile ["w"] "orphan" = none :=
-  findFile_none_of_missing chainFS_plain (by decide) (by
+theorem wa_chainFS_no_orphan : chainFS.findRooted [] ["w"] "orphan" = none :=
+  findRooted_none_of_missing chainFS_plain (by decide) (by
     intro e he
     simp only [supportedExts, List.mem_cons, List.not_mem_nil, or_false] at he
     rcases he with rfl | rfl | rfl | rfl | rfl | rfl <;> decide)
@@ -310,9 +310,9 @@ theorem wa_chainFS_layers_orphan (st : PState) :
   have hp : (["w", "orphan.x.yaml"] : Comps) = ["w"] ++ ["orphan.x" ++ "." ++ "yaml"] := by decide
   have h := loadFile_layerFile chainFS_plain (by decide) wa_chainFS_orphan ["w"]
     (fileIdOf none ["w", "orphan.x.yaml"])
-  have hpar : fileParents chainFS (["w"] ++ ["orphan.x" ++ "." ++ "yaml"]) [.map []] =
+  have hpar : fileParents chainFS ⟨[], ["w"]⟩ (["w"] ++ ["orphan.x" ++ "." ++ "yaml"]) [.map []] =
       .error .missingFile := by
-    rw [fileParents_layer chainFS_plain (by decide) wa_chainFS_orphan (by
+    rw [fileParents_layer ⟨[], ["w"]⟩ chainFS_plain (by decide) wa_chainFS_orphan (by
       intro x hx
       have : x = Val.map [] := by simpa using hx
       subst this; rfl), wa_parts_orphan]
